@@ -12,7 +12,7 @@ IFACE = 'org.ietf.dtn.tcpcl.Contact'
 def default_params():
     return dict(
         role='passive',            # role of the real endpoint R
-        seg_mru=4, tx_init=4, chunk=10240, keepalive=0, idle=0,
+        seg_mru=4, tx_init=4, chunk=10240, keepalive=0, idle=0, modulate=None,
         queued=(),                 # hex bundles R's user queues right after start
         max_quiesce=400,
     )
@@ -35,6 +35,7 @@ class PeerWorld(World):
         cfg = ns.config.Config(
             tls_enable=False, node_id='dtn://r/', keepalive_time=prm['keepalive'], idle_time=prm['idle'],
             segment_size_mru=prm['seg_mru'], segment_size_tx_initial=prm['tx_init'],
+            modulate_target_ack_time=prm['modulate'],
         )
         cfg._bus_conn = proc.bus
         hdl_kwargs = dict(config=cfg, sock=conn.ends[self.ridx])
